@@ -1,12 +1,5 @@
-(* The hand-written model's constants and tables equal the ones regenerated from the source (Gen/). *)
-From JP Require Import Base.Json Model.Regex Model.Tokens Model.Lex Model.Parse Model.Ast Model.EffectLang.
-From JP Require Import Gen.LexConst Gen.ParseConst Gen.Env Gen.Effects Proofs.EffectsPolicy.
-
-Theorem lex_regexes_regenerated :
-  g_RE_WHITESPACE = RE_WHITESPACE /\ g_RE_PROPERTY = RE_PROPERTY /\ g_RE_INDEX = RE_INDEX /\ g_RE_INT = RE_INT /\
-  g_RE_FLOAT = RE_FLOAT /\ g_RE_FUNCTION_NAME = RE_FUNCTION_NAME /\ g_ESCAPES = ESCAPES.
-Proof. repeat split; reflexivity. Qed.
-
+(* regenerated parser tables = the model's (Gen/ParseConst.v) *)
+From JP Require Import Base.Json Model.Tokens Model.Parse Model.Ast Gen.ParseConst.
 Definition all_ttypes : list ttype :=
   [T_EOF; T_ERROR; T_INIT; T_COLON; T_COMMA; T_DOUBLE_DOT; T_FILTER; T_INDEX; T_LBRACKET; T_PROPERTY; T_RBRACKET; T_ROOT; T_WILD;
    T_AND; T_CURRENT; T_DQ_STRING; T_EQ; T_FALSE; T_FLOAT; T_FUNCTION; T_GE; T_GT; T_INT; T_LE; T_LPAREN; T_LT; T_NE; T_NOT; T_NULL;
@@ -40,12 +33,3 @@ Definition parse_tables_ok : bool :=
 Theorem parse_tables_regenerated : parse_tables_ok = true.
 Proof. vm_compute. reflexivity. Qed.
 
-Theorem env_constants_regenerated :
-  g_builtin_registry = builtin_registry /\ g_max_int_index = 2 ^ 53 - 1 /\ g_min_int_index = - (2 ^ 53) + 1 /\
-  g_nondeterministic = false /\ g_match_flags = 0%nat /\ g_search_flags = 0%nat /\
-  g_match_entry = [102; 117; 108; 108; 109; 97; 116; 99; 104]%N /\ g_search_entry = [115; 101; 97; 114; 99; 104]%N.
-Proof. repeat split; reflexivity. Qed.
-
-(* C14 / C16: every store and mutation in the package is of a tolerated kind *)
-Theorem package_is_pure : pure_package g_effects g_bindings = true.
-Proof. vm_compute. reflexivity. Qed.
